@@ -146,6 +146,29 @@ def builders(w):
         c = {Vertex: inner}
         return [c, inner], [UniverseLaws(edge_whitelist=c)]
 
+    def laws_whitelist_proxy_rows(w):
+        # rows handed over as read-only views of dicts the caller still owns
+        import types
+        inner = {Vertex: DirectedEdge}
+        c = {Vertex: types.MappingProxyType(inner)}
+        return [c, inner], [UniverseLaws(edge_whitelist=c)]
+
+    def laws_whitelist_proxy_outer(w):
+        import types
+        inner = {Vertex: DirectedEdge}
+        outer = {Vertex: inner}
+        return [outer, inner], [UniverseLaws(edge_whitelist=types.MappingProxyType(outer))]
+
+    def vertex_links_tuple_then_list(w):
+        # the same vertices given once as a tuple-backed list view: a list that is also kept by the caller
+        c = list(w.l)
+        v = Vertex(links=c, universes=[w.u[0]])
+        return [c], [v]
+
+    def universe_vertices_single(w):
+        c = [w.v[0]]
+        return [c], [Universe(vertices=c)]
+
     def hyper_vertices(w):
         c = list(w.v)
         return [c], [HyperLink(vertices=c)]
@@ -165,7 +188,8 @@ def builders(w):
         return [rows, rows[0], side], [adjmatrix.load_adj_matrix(rows, side)]
 
     for f in (vertex_links, vertex_universes, vertex_attributes, universe_vertices, laws_whitelist,
-              hyper_vertices, edge_attributes, adj_dict, adj_matrix):
+              laws_whitelist_proxy_rows, laws_whitelist_proxy_outer, vertex_links_tuple_then_list,
+              universe_vertices_single, hyper_vertices, edge_attributes, adj_dict, adj_matrix):
         out[f.__name__] = f
     return out
 
